@@ -155,7 +155,7 @@ let rec split_at (sep : string) (l : string list) : string list * string list =
   | x :: t -> let (a, b) = split_at sep t in (x :: a, b)
 
 let reply_of_str = function
-  | "E" | "ET" | "EI" | "EW" | "EF" | "EG" -> BusErr   (* which error the bus call fails with is the harness's business *)
+  | "E" | "ET" | "EI" | "EW" | "EF" | "EG" | "ES" | "EB" -> BusErr   (* which error the bus call fails with is the harness's business *)
   | "N" -> Rep None
   | s -> Rep (Some (msg_of_str s))
 
